@@ -308,6 +308,20 @@ class Pipe(object):
         return self.finish()
 
 
+REPEAT = Shape("@repeat", (), tag="repeat")     # "send the previous command text again, verbatim"
+
+
+def next_text(w, pipe, shape):
+    """Text of the next command for `shape`; for REPEAT the previous G-code text (same literals, same values)."""
+    if shape is REPEAT:
+        prev = [t for t in pipe.program if not t.startswith(("@", "<"))]
+        if len(prev) < 2:           # the prologue's commands do not count
+            skip(w, "nothing to repeat")
+        return prev[-1], rs274.read(prev[-1]).code
+    text, _ = render(w, shape, pipe.k)
+    return text, shape.code
+
+
 def synth_has_e(rec):
     """Did the filter emit a command of its own (not the original text) that carries an E word?"""
     for e in rec.emitted:
